@@ -28,7 +28,7 @@ def be_value(s):
     return be_value(s[:len(s) - 1]) * 256 + s[len(s) - 1]
 
 
-@spec
+@spec(opaque=True, args=['int'], ret='bytes')
 def scriptnum_enc(v):
     """Bitcoin CScriptNum serialisation: minimal little-endian sign-magnitude"""
     if v == 0:
@@ -42,7 +42,7 @@ def scriptnum_enc(v):
     return d
 
 
-@spec
+@spec(opaque=True, args=['bytes'], ret='int')
 def scriptnum_dec(s):
     """CScriptNum deserialisation (any length): little-endian magnitude, top bit of last byte = sign"""
     if len(s) == 0:
@@ -54,7 +54,7 @@ def scriptnum_dec(s):
     return mag
 
 
-@spec
+@spec(opaque=True, args=['bytes'], ret='bool')
 def is_minimal_num(s):
     """Core's minimal-encoding rule for script numbers"""
     if len(s) == 0:
